@@ -424,4 +424,65 @@ def Agree (w : World) (s : Source) : Prop :=
 def StoredCompat (s : Source) (sp : SP) (c : Cache) : Prop :=
   sp.runId = s.id2 → sp.runId ≠ s.id1 → c.runId = s.id1 → sp.offset ≤ s.switchOff
 
+/-! ## 7. The target's bookkeeping across connections
+
+  `output.StartPoint` / `SetRunId` / `ResetStartPoint` and the position `Send`
+  stores (syncer/output.go, pkg/redis/checkpoint), next to what the target's
+  data really is. `resume` = EnableResumeFromBreakPoint (position kept on the
+  target and re-keyed by `UpdateCheckpoint`) vs. the in-memory position, whose
+  label `SetRunId` does not touch. -/
+
+/-- what the target's data really is -/
+inductive Truth
+  | none                          -- nothing replayed yet
+  | dirty                         -- a snapshot replay did not complete
+  | at (id : Id) (upto : Int)     -- history `id` applied up to `upto`
+
+structure Tgt where
+  stored : SP          -- what `output.StartPoint` returns
+  truth : Truth
+
+/-- `syncMeta`'s calls on the output: on FULLRESYNC `ResetStartPoint` (the
+    position is deleted; `SetRunId → UpdateCheckpoint` then leaves `(id,−1)` on
+    the target, "?" in memory), otherwise `SetRunId` alone (re-keys the stored
+    position to the new id on the target, leaves the in-memory label). -/
+def Tgt.afterMeta (resume : Bool) (t : Tgt) (m : Meta) : Tgt :=
+  if m.ps.full then
+    { t with stored := if resume then ⟨m.runId, -1⟩ else SP.initial }
+  else
+    { t with stored := if resume then ⟨m.runId, t.stored.offset⟩ else t.stored }
+
+/-- `sendOutput` + `Send`: a snapshot reader first drops the stored position
+    (`ResetStartPoint`), a completed replay stores `(run id, left)`; a log reader
+    stores the offset of the last command applied (`e`; nothing when `e ≤ start`),
+    under the reader's run id on the target, under the old label in memory. -/
+def Tgt.afterSend (resume : Bool) (s : Source) (t : Tgt) (r : Result) (done : Bool) (e : Int) : Tgt :=
+  match r.delivery with
+  | .stream start _ =>
+    if e > start then ⟨⟨if resume then r.mt.runId else t.stored.runId, e⟩, .at s.id1 e⟩ else t
+  | .snapshot _ left _ =>
+    if done then ⟨⟨r.mt.runId, left⟩, .at s.id1 left⟩ else ⟨SP.initial, .dirty⟩
+  | .none => t
+
+/-- one connection seen from the target -/
+def step (resume : Bool) (w : World) (s : Source) (t : Tgt) (c : Cache) (d : CData) (done : Bool) (e : Int) : Tgt :=
+  (t.afterMeta resume (run w s t.stored c d).mt).afterSend resume s (run w s t.stored c d) done e
+
+def AgreeBelow (w : World) (a b : Id) (x : Int) : Prop :=
+  ∀ n, 0 ≤ n → n < x → w.hist a n = w.hist b n
+
+/-- the stored position tells the truth: if it could lead to a continuation (its
+    id is one the source serves, its offset is not negative) then the target
+    really holds some history up to exactly that offset, and that history agrees
+    below it with the current one — or the position is still labelled with the
+    previous id, agrees with *that* history, and the cache is not yet labelled
+    with the current id (the source will check the offset against its switch
+    offset when asked for it). -/
+def Truthful (w : World) (s : Source) (t : Tgt) (c : Cache) : Prop :=
+  (t.stored.runId = s.id1 ∨ t.stored.runId = s.id2) → 0 ≤ t.stored.offset →
+    ∃ tid, t.truth = .at tid t.stored.offset ∧
+      (AgreeBelow w tid s.id1 t.stored.offset ∨
+        (t.stored.runId = s.id2 ∧ t.stored.runId ≠ s.id1 ∧
+          AgreeBelow w tid s.id2 t.stored.offset ∧ c.runId ≠ s.id1))
+
 end GunYu.Psync
